@@ -56,7 +56,16 @@ bool H5Group::objectOfType(const std::string &name, H5O_type_t type) const {
         return false;
     }
 
+    // only the type is needed: do not ask the library for header, b-tree and
+    // heap statistics of the object as well
+#if H5_VERSION_GE(1, 10, 3)
+    HErr err = H5Oget_info2(obj, &info, H5O_INFO_BASIC);
+#else
     HErr err = H5Oget_info(obj, &info);
+#endif
+    if (err.isError()) {
+        H5Oclose(obj);
+    }
     err.check("Could not obtain object info");
 
     bool res = info.type == type;
